@@ -21,13 +21,25 @@ META = dict(
               '+ step-level differential correspondence of event logs, cache occupancy and reported facts against pg.Dict/pg.List/pg.Object '
               '+ direct oracles (event contract from before/after diffs; derived facts against a copy rebuilt from JSON)',
     design_ref='DESIGN.md §5 C09, design/C09.md',
-    level_text='see design/C09.md',
-    level_note='see design/C09.md',
+    level_text=('Theorems (any forest, any operation of the SymCore catalogue, any scope stack): a call delivers at most one notification and nobody hears about it twice; '
+                'the receivers are exactly the observing nodes among the written containers and the containers above them; every event carries exactly the updates at or below its '
+                'receiver, keyed by relative path, with the items the forest held before / holds after the write; inside a disabled scope, for Dict.update and for skip_notification=True '
+                'nothing is delivered; receivers are notified children first (on simple keys, where the KeyPath comparison is an order); every operation resets the memoised facts of every '
+                'node whose contents it changes, queries answer with the fact of the current contents, hence after any history every node reports what a computation from scratch gives. '
+                'Tie: step-level correspondence of event logs (receiver, path, payload with old and new contents), of which memo attributes every live node holds, and of the observed facts, '
+                'on a systematic sweep (every mutator x depth x subscriber placement x notification on/off) and generated histories; direct oracles for the event contract and for freshness '
+                'against a copy rebuilt from JSON, also on typed trees with required/default fields, MISSING_VALUE and pg.oneof.'),
+    level_note=('Trusted: Coq kernel; extraction cross-checked against vm_compute; the SymCore driver and the C09 observers (test classes, callbacks, reading the memo attributes). '
+                'Modelled, not verified: the Python code (tied by the correspondence). Not covered by C09_fresh: rebind(notify_parents=False) (correspondence and oracles only). '
+                'Children-first is proved for paths of simple keys (where sorted() is determined). Typed fields and pg.oneof are covered by the direct oracle only. '
+                'One open finding (event for a reset that changes nothing), exhibited by C09_spurious_refuted.'),
     rule='a case is (forest literal with callback flags, list of (scope stack, operation, observe?)); distinct by canonical text; non-trivial when at least one '
          'step delivers an event to a subscribing ancestor or changes a memoised fact of a node that held it',
     trusted_base=['extraction: ExtrOcamlBasic only; ocaml/main.ml lexer/printer; cross-checked against vm_compute on a sample',
                   'implementation driver harness/props/symcore_driver.py + the observers of harness/props/c09.py (test classes, callbacks, cache inspection)'],
-    assumptions=['histories are finite sequences of the modelled operations; rebind batches generated for the correspondence are prefix-free'],
+    assumptions=['histories are finite sequences of the modelled operations; rebind batches generated for the correspondence are prefix-free',
+                 'C09_fresh: history_ok -- no rebind(notify_parents=False) step; an opaque leaf identity has one content (sort/reverse identity test)',
+                 'C09_children_first: the keys on the receivers\' paths are simple (ints 0..9, strings not starting with a digit or sign); counted per run in coverage.hypotheses'],
 )
 
 # ---- observers ---------------------------------------------------------------------------------------------------------------
@@ -366,12 +378,33 @@ class Oracle9:
     self.hits = []
     self.stats = {}
     self.failed = set()
+    self.noncanon = False
 
   def prepare(self, impl, scope, op):
     nodes = impl.reachable()
-    return dict(kids={i: (x, kids_of(x)) for i, (x, ri, keys) in nodes.items()})
+    # a batch whose list indices are negative or past the end: two of its paths may name one slot (or one path a slot below another)
+    noncanon = False
+    if op[0] in (D.REBIND, REBINDX) and len(op[2]) > 1:
+      try:
+        t = impl.at(op[1])
+        for path, _ in op[2]:
+          x = t
+          for k in path:
+            k = D.dec_key(k)
+            if isinstance(x, list) and isinstance(k, int) and not 0 <= k < len(x):
+              noncanon = True
+            x = x.sym_getattr(k) if D.is_sym(x) and ((isinstance(x, list) and isinstance(k, int) and -len(x) <= k < len(x)) or (not isinstance(x, list) and x.sym_hasattr(k))) else None
+            if x is None:
+              break
+      except Exception:      # pylint: disable=broad-except
+        pass
+    return dict(kids={i: (x, kids_of(x)) for i, (x, ri, keys) in nodes.items()}, pos={i: (ri, keys) for i, (x, ri, keys) in nodes.items()}, noncanon=noncanon)
 
   def hit(self, sig, what, n):
+    if self.noncanon and sig.split('/')[1] in ('spurious', 'payload-path', 'payload-old', 'payload-new', 'payload-incomplete', 'not-notified') and 'noop-update' not in sig:
+      # open finding: the paths of this batch overlap through negative / out-of-range list indices
+      sig = 'C09/payload/overlapping-batch/non-canonical-index'
+      what = 'a rebind batch whose paths name one slot twice (or a slot below a replaced node) through negative / out-of-range list indices: ' + what
     clause = sig.split('/')[1]
     if clause in self.failed:
       return
@@ -382,6 +415,7 @@ class Oracle9:
     P = D.pg()
     name = op_name(op)
     tag = op[0]
+    self.noncanon = bool(before and before.get('noncanon'))
     enabled = D.eff(scope[2], True) is not False
     skip = tag in (D.DUPDATE, D.DIOR)
     if tag == REBINDX and op[3]:
@@ -415,17 +449,19 @@ class Oracle9:
             self.hit('C09/order/%s/-' % name, '%s notified the node at %r before its descendant at %r' % (name, str(recv[i].sym_path), str(recv[j].sym_path)), n)
       # --- who must hear: observers among the changed containers and everything above them
       changed = []
+      written = {id(info.get('target'))} | {id(u.target) for _, _, _, raw in log if raw for u in raw.values()}
       for i, (x, kids) in before['kids'].items():
         if i in after:
           now = kids_of(x)
-          if isinstance(x, list):
+          raw_diff = len(now) != len(kids) or any(k1 != k2 or v1 is not v2 for (k1, v1), (k2, v2) in zip(kids, now))
+          if isinstance(x, list) and i not in written:
             # (MISSING_VALUE placeholders left in a list by a deletion made while notification was off are dropped by the next
-            #  notification that passes: that deferred clean-up is not a change of this call)
+            #  notification that passes: that deferred clean-up of a list the call did not write to is not a change of this call)
             ph = lambda v: (not D.is_sym(v)) and P.MISSING_VALUE == v
             a_, b_ = [v for _, v in kids if not ph(v)], [v for _, v in now if not ph(v)]
             if len(a_) != len(b_) or any(v1 is not v2 for v1, v2 in zip(a_, b_)):
               changed.append(x)
-          elif len(now) != len(kids) or any(k1 != k2 or v1 is not v2 for (k1, v1), (k2, v2) in zip(kids, now)):
+          elif raw_diff:
             changed.append(x)
       expected = {}
       for c in changed:
@@ -440,13 +476,22 @@ class Oracle9:
         if i not in got:
           self.hit('C09/not-notified/%s/%s' % (name, ['dict', 'list', 'object', 'object', 'object'][min(D.kind_of(x), 4)]),
                    '%s changed something at or below the %s at %r, which observes changes, and it received no event' % (name, type(x).__name__, str(x.sym_path)), n)
-      # open finding: writing MISSING_VALUE to an object field that already holds its default is reported as an update (None -> None)
-      resets = any(v == [0, [0, [4]]] for v in (D.op_values(op) if tag != REBINDX else [v for _, v in op[2]]))
+      # open finding: a write that stores what is already there (MISSING_VALUE to an object field that holds its default; Insertion(MISSING_VALUE),
+      # which is dropped again) is reported as an update whose old value is its new value
+      def unwrap(v):
+        return unwrap(v[1]) if v[0] == 2 else v
+      resets = any(unwrap(v) == [0, [0, [4]]] for v in (D.op_values(op) if tag != REBINDX else [v for _, v in op[2]]))
+      same = lambda u: u.old_value is u.new_value or ((not D.is_sym(u.old_value)) and (not D.is_sym(u.new_value)) and
+                                                       P.MISSING_VALUE == u.old_value and P.MISSING_VALUE == u.new_value)
+      raws = {id(me): raw for me, _, _, raw in log}
       for i, x in got.items():
-        if i not in expected and i in after and resets and not changed:
-          self.hit('C09/spurious/reset-to-default/unchanged-field',
-                   '%s of MISSING_VALUE to an object field that already holds its default delivered a change event (old value is new value) although nothing changed' % name, n)
-        elif i not in expected and i in after:
+        if i in expected or i not in after:
+          continue
+        raw = raws.get(i)
+        if (raw and all(same(u) for u in raw.values())) or (not raw and resets):
+          self.hit('C09/spurious/noop-update/old-is-new',
+                   '%s stored what was already there and delivered a change event whose old value is its new value' % name, n)
+        else:
           self.hit('C09/spurious/%s/-' % name, '%s delivered an event to the node at %r although nothing at or below it changed' % (name, str(x.sym_path)), n)
       # --- payloads
       for me, _, _, raw in log:
@@ -458,7 +503,13 @@ class Oracle9:
           seen_containers.add(id(c))
           if id(c) in pos_of and id(me) in pos_of:
             d = len(pos_of[id(c)][1]) - len(pos_of[id(me)][1])
-            if not (c is me or is_ancestor(me, c)) or d != len(rel.keys) - 1:
+            detached_now = bool(before['pos'].get(id(me), (0, []))[1]) and not pos_of[id(me)][1]
+            if detached_now and tag in (D.REBIND, REBINDX) and (not (c is me or is_ancestor(me, c)) or d != len(rel.keys) - 1):
+              # open finding: a batch that writes below a node and then replaces that node (paths that overlap through a negative list index)
+              self.hit('C09/payload/overlapping-batch/non-canonical-index',
+                       'a rebind batch wrote below the node that was at %r and then replaced it: the detached node receives the change with the path %r (relative to the old root, not to itself)' % (
+                           str(u.path.parent if u.path.keys else u.path), str(rel)), n)
+            elif not (c is me or is_ancestor(me, c)) or d != len(rel.keys) - 1:
               self.hit('C09/payload-path/%s/-' % name, 'the receiver at %r got the relative path %r for a change in the container at %r' % (str(me.sym_path), str(rel), str(c.sym_path)), n)
           k = rel.keys[-1] if rel.keys else None
           b = before['kids'].get(id(c))
@@ -468,12 +519,10 @@ class Oracle9:
           if isinstance(c, list):
             is_del = (not D.is_sym(u.new_value)) and P.MISSING_VALUE == u.new_value
             is_new = (not D.is_sym(u.old_value)) and P.MISSING_VALUE == u.old_value
-            # (a list rebind applies its paths in descending order: a negative index is resolved after the insertions of the
-            #  same batch, so for batches the old value is only required to have been in the list)
+            # (a list rebind applies its paths in descending order and resolves a negative index after the insertions of the same batch: the old
+            #  value of a batched list update may be a value the batch itself put there, so it is only checked for single writes)
             batch = tag in (D.REBIND, REBINDX)
-            if not is_new and not ((isinstance(k, int) and 0 <= k < len(bk) and bk[k][1] is u.old_value) or
-                                   (batch and (any(v is u.old_value for _, v in bk) or
-                                               any(w.new_value is u.old_value for _, _, _, r2 in log if r2 for w in r2.values())))):
+            if not is_new and not batch and not (isinstance(k, int) and 0 <= k < len(bk) and bk[k][1] is u.old_value):
               self.hit('C09/payload-old/%s/list' % name, 'old value reported for %r is not what the list held there before the call' % str(rel), n)
             if not is_del and not any(v is u.new_value for _, v in ak) and tag not in (D.REBIND, REBINDX):
               self.hit('C09/payload-new/%s/list' % name, 'new value reported for %r is not in the list after the call' % str(rel), n)
@@ -494,10 +543,10 @@ class Oracle9:
             bk = dict((repr(k), v) for k, v in before['kids'][id(c)][1]); ak = dict((repr(k), v) for k, v in kids_of(c))
             want = {k for k in set(bk) | set(ak) if bk.get(k, P.MISSING_VALUE) is not ak.get(k, P.MISSING_VALUE)}
             have = {repr(rel.keys[-1]) for rel, u in raw.items() if u.target is c}
-            noop = {repr(rel.keys[-1]) for rel, u in raw.items() if u.target is c and u.old_value is u.new_value}
-            if want != have and want == have - noop and resets:
-              self.hit('C09/spurious/reset-to-default/unchanged-field',
-                       '%s of MISSING_VALUE to an object field that already holds its default is reported in the payload (old value is new value) although nothing changed there' % name, n)
+            noop = {repr(rel.keys[-1]) for rel, u in raw.items() if u.target is c and same(u)}
+            if want != have and want == have - noop:
+              self.hit('C09/spurious/noop-update/old-is-new',
+                       '%s stored what was already there and reports it in the payload as an update whose old value is its new value' % name, n)
             elif want != have:
               self.hit('C09/payload-incomplete/%s/keys' % name, 'the receiver at %r was told about keys %s of the container at %r; the keys that changed are %s' % (
                   str(me.sym_path), sorted(have), str(c.sym_path), sorted(want)), n)
@@ -551,6 +600,10 @@ CORPUS9 = {
   # the open finding
   'reset-to-default-unchanged': case9([('obj', 0, {'x': None, 'y': 1})], (NS, [D.OSET, pos(0), ek('x'), val('MISSING')]),
                                       (NS, [D.REBIND, pos(0), [[[ek('x')], val('MISSING')], [[ek('y')], val(2)]]])),
+  'insert-missing-noop': case9([('cb', [1, 2])], (NS, [D.REBIND, pos(0), [[[[1, -1]], [2, val('MISSING')]]]])),
+  'overlapping-batch': case9([('cb', {'z': [('cb', {'a': 1})], 'x': 1})],
+                             (NS, [D.REBIND, pos(0), [[[ek('z'), [1, 0], ek('a')], val(-1)], [[ek('z'), [1, -1]], val(5)]]])),
+  'overlapping-append-delete': case9([('cb', {'a': [0, 1]})], (NS, [D.REBIND, pos(0, 'a'), [[[[1, 2]], val('MISSING')], [[[1, 4]], val(None)]]])),
   # notify_parents=False stops at the rebind target; skip_notification=False overrides a disabled scope
   'notify-parents-false': case9([('cb', [('cb', [('cb', [('cb', [0])])])])], (NS, NOP()), (NS, [REBINDX, pos(0, 0), [[[[1, 0], [1, 0], [1, 0]], val(2)]], [], 0]),
                                 (NS, [REBINDX, pos(0, 0), [[[[1, 0]], val(1)]], [], 0])),
@@ -558,6 +611,9 @@ CORPUS9 = {
   # purge of MISSING_VALUE inside notification, with notify_parents=False below a list that holds MISSING_VALUE
   'purge-below-stop': case9([[1, {'k': [1, 2]}]], (OFF, [D.LSET, pos(0), 0, val('MISSING')]), (NS, NOP()), (NS, [REBINDX, pos(0, 1), [[[ek('k'), [1, 0]], val(7)]], [], 0]),
                             (NS, [D.LSET, pos(0, 1, 'k'), 0, val(8)])),
+  # the notified list drops a MISSING_VALUE placeholder while its parent is not notified (notify_parents=False): the parent's facts change too
+  'purge-at-stop': case9([{'a': [1, {'k': 1}], 'b': 2}], (OFF, [D.LSET, pos(0, 'a'), 0, val('MISSING')]), (NS, NOP()),
+                         (NS, [REBINDX, pos(0, 'a'), [[[[1, 1], ek('k')], val(2)]], [], 0]), (NS, NOP())),
   # placeholders: pure / non-deterministic leaves appear and disappear at depth
   'placeholders': case9([{'a': {'b': [1, ('opq', 1, 2)]}, 'c': ('obj', 1, {'x': ('opq', 2, 1)})}], (NS, NOP()), (NS, [D.LPOP, pos(0, 'a', 'b'), []]),
                         (OFF, [D.OSET, pos(0, 'c'), ek('x'), val(1)]), (NS, [D.DUPDATE, pos(0, 'a'), [[ek('z'), val(('opq', 3, 1))]]])),
@@ -874,6 +930,12 @@ def typed_case(ctx, seed, nsteps, report=True):
   return done
 
 # ---- the check ---------------------------------------------------------------------------------------------------------------------------
+def simple_key(k):
+  """The key class of theorem C09_children_first (Proofs/SymCoreEventsOrder.v simple_key)."""
+  if k[0] == 1:
+    return 0 <= k[1] <= 9
+  return len(k) == 1 or k[1] > 57
+
 def describe_diff(case, a, b):
   from harness.lib import tr as trlib
   d = dict(case=trlib.to_line(case)[:3000])
@@ -899,33 +961,31 @@ def py_snippet(case):
 
 def run(ctx):
   from harness.lib import tr as trlib
+  t_start = time.time()
   ctx.build()
   t0 = time.time()
   rng = ctx.rng
   quirks = D.quirk_flags()
   ctx.extra['quirk_flags'] = dict(copy_drops_missing=quirks[0])
-  cases, kinds = [], []
-  for name, c in CORPUS9.items():
-    cases.append([quirks, c[1], c[2]]); kinds.append('corpus:' + name)
-  for name, c in sweep_cases(ctx.scale(1, 3)):
-    cases.append([quirks, c[1], c[2]]); kinds.append(name)
+  # wall-clock budgets of the tier (the machine may be busy): hand-written cases and the sweep always run; generated histories and typed
+  # trees stop when their budget is used; what was not run is reported, never silently dropped
+  deadline_random = t_start + ctx.scale(50, 900)
+  deadline_typed = t_start + ctx.scale(85, 1300)
+  fixed = [('corpus:' + name, [quirks, c[1], c[2]]) for name, c in CORPUS9.items()]
+  fixed += [(name, [quirks, c[1], c[2]]) for name, c in sweep_cases(ctx.scale(1, 3))]
   n = ctx.scale(600, 30000)
-  with installed():
-    gens = [(make_gen(rng, quirks=quirks), 'random', 0.5), (make_gen(rng, focus=D.MUTATING, quirks=quirks), 'mutators', 0.3),
-            (make_gen(rng, focus={D.REBIND, D.DUPDATE, D.LEXTEND, D.LIMUL, D.LCLEAR, D.LSORT, D.LREVERSE, D.DCLEAR, D.DPOPITEM}, quirks=quirks, notify_off=0.1), 'batches', 0.2)]
-    for g, kind, w in gens:
-      for _ in range(int(n * w)):
-        cases.append(g.case(rng.choice([4, 8, 10, 12]))); kinds.append(kind)
-  impl_outs = []
-  stats = {}
-  for case, kind in zip(cases, kinds):
+  plan = [('random', None, 0.5, 0.25), ('mutators', D.MUTATING, 0.3, 0.25),
+          ('batches', {D.REBIND, D.DUPDATE, D.LEXTEND, D.LIMUL, D.LCLEAR, D.LSORT, D.LREVERSE, D.DCLEAR, D.DPOPITEM}, 0.2, 0.1)]
+  cases, kinds, impl_outs = [], [], []
+  stats, hyp = {}, {}
+  def run_one(kind, case):
     orc = Oracle9()
     try:
       out = run_case9(case, orc)
     except Exception as e:     # the driver itself failed: fail closed
       out = None
       ctx.broken.append(dict(kind='driver-crash', name=type(e).__name__, detail=repr(e)[:300] + ' on ' + trlib.to_line(case)[:600]))
-    impl_outs.append(out)
+    cases.append(case); kinds.append(kind); impl_outs.append(out)
     for sig, what, step in orc.hits:
       ctx.hit(sig, what, dict(case=trlib.to_line(case), step=step, snippet=py_snippet(case)))
     for k, v in orc.stats.items():
@@ -943,10 +1003,35 @@ def run(ctx):
           nontrivial = True
         held = sum(map(sum, [f[:3] for f in s[3]])) if not ob else None
       ctx.hist('steps_per_case', len(case[2]))
+      # how often the hypotheses of the theorems hold on what was generated
+      simple = all(simple_key(k) for s in out[1] for e in s[2] for k in e[1])
+      hyp['cases_with_events'] = hyp.get('cases_with_events', 0) + int(any(s[2] for s in out[1]))
+      hyp['cases_with_events_on_simple_keys'] = hyp.get('cases_with_events_on_simple_keys', 0) + int(any(s[2] for s in out[1]) and simple)
+      hyp['steps'] = hyp.get('steps', 0) + len(case[2])
+      hyp['steps_notify_parents_false'] = hyp.get('steps_notify_parents_false', 0) + sum(1 for _, op, _ in case[2] if op[0] == REBINDX and not op[4])
     k0 = kind.split(':')[0].split('/')[0]
-    ctx.count(trlib.to_line(case), nontrivial=nontrivial, kind=k0 if k0 != 'sweep' else 'sweep',
+    ctx.count(trlib.to_line(case), nontrivial=nontrivial, kind=k0,
               sample=dict(kind=kind, case=trlib.to_line(case)[:700]) if (nontrivial and kind == 'random' and len(ctx.samples) < 3) or (kind.startswith('sweep') and len(ctx.samples) < 1) else None)
-  ctx.log('implementation ran %d cases in %.1fs' % (len(cases), time.time() - t0))
+  for kind, case in fixed:
+    run_one(kind, case)
+  skipped = 0
+  with installed():
+    gens = [(make_gen(rng, focus=focus, quirks=quirks, notify_off=off), kind, int(n * w)) for kind, focus, w, off in plan]
+  # round-robin over the generators, so that a budget cut keeps the mix
+  todo = [[g, kind, cnt] for g, kind, cnt in gens]
+  while any(t[2] > 0 for t in todo):
+    for t in todo:
+      if t[2] <= 0:
+        continue
+      if time.time() > deadline_random:
+        skipped += t[2]; t[2] = 0
+        continue
+      with installed():
+        case = t[0].case(rng.choice([4, 8, 10, 12]))
+      run_one(t[1], case)
+      t[2] -= 1
+  ctx.extra['generated_cases_skipped_for_time_budget'] = skipped
+  ctx.log('implementation ran %d cases in %.1fs (%d generated cases skipped for the time budget)' % (len(cases), time.time() - t0, skipped))
   model_outs = ctx.model_run(cases)
   diffs = {}
   for c, a, b in zip(cases, impl_outs, model_outs):
@@ -956,10 +1041,15 @@ def run(ctx):
                     cases, impl_outs, model_outs, describe=lambda c: diffs.get(id(c)))
   # typed trees (required / default fields, MISSING_VALUE, pg.oneof): direct oracles only
   t1 = time.time()
-  tsteps = typed_run(ctx, rng, ctx.scale(60, 2500), 12)
-  ctx.log('typed trees: %d steps in %.1fs' % (tsteps, time.time() - t1))
+  tsteps, tcases, twant = 0, 0, ctx.scale(60, 2500)
+  while tcases < twant and time.time() < deadline_typed:
+    tsteps += typed_case(ctx, rng.randrange(1 << 30), 12); tcases += 1
+  ctx.log('typed trees: %d histories, %d steps in %.1fs (%d skipped for the time budget)' % (tcases, tsteps, time.time() - t1, twant - tcases))
   ctx.extra['typed_steps'] = tsteps
+  ctx.extra['typed_histories'] = tcases
+  ctx.extra['typed_histories_skipped_for_time_budget'] = twant - tcases
   ctx.extra['oracle_stats'] = stats
+  ctx.extra['hypotheses'] = hyp
   ctx.extra['corpus_cases'] = len(CORPUS9)
   ctx.extra['sweep_cases'] = sum(1 for k in kinds if k.startswith('sweep'))
   # violation search when something is broken and the oracles have not hit yet: more histories biased to the operations that disagree
@@ -968,10 +1058,12 @@ def run(ctx):
     for i in bad[:50]:
       d = diffs.get(id(cases[i])) or {}
       ops |= {t for t, nm in D.OP_NAMES.items() if nm == d.get('op')}
+    stop_search = time.time() + ctx.scale(60, 600)
     with installed():
       g = make_gen(rng, focus=ops or D.MUTATING, quirks=quirks)
-      more = [g.case(8) for _ in range(ctx.scale(800, 8000))]
-    for case in more:
+    while time.time() < stop_search and not ctx.hits:
+      with installed():
+        case = g.case(8)
       orc = Oracle9()
       try:
         run_case9(case, orc)
@@ -979,10 +1071,8 @@ def run(ctx):
         continue
       for sig, what, step in orc.hits:
         ctx.hit(sig, what, dict(case=trlib.to_line(case), step=step, snippet=py_snippet(case)))
-      if ctx.hits:
-        break
-    if not ctx.hits:
-      typed_run(ctx, rng, ctx.scale(300, 3000), 12)
+    while time.time() < stop_search + ctx.scale(30, 300) and not ctx.hits:
+      typed_case(ctx, rng.randrange(1 << 30), 12)
 
 def replay(ctx, rp):
   from harness.lib import tr as trlib
